@@ -4,7 +4,7 @@ MANIFEST = dict(
     category="other",
     text="Bookkeeping of the PCA routines decided on the real bodies for bounded concrete shapes: PCA() preprocesses once with the requested "
          "option into the model's own vectors, sizes scores/loadings/dmodx as objects|variables x components with the component count clamped to "
-         "the variable count, stores one explained-variance entry per component and does not modify its input; PCAIndVarPredictor returns "
+         "the variable count, stores one explained-variance entry per component and does not modify its input; PCAScorePredictor applies the stored averages/scalings, projects component pc on loadings column pc and hands the accumulating product kernel a zeroed score vector for every component; PCAIndVarPredictor returns "
          "objects x variables, clamps the component count and back-transforms as (sum of score*loading) * stored scale + stored mean (ring mode).",
     note="All numerical callees of PCA() are recording oracles (preprocessing, column variances, NIPALS products, norms, convergence). Orthonormal "
          "loadings, score = projection, residual orthogonality, variance monotonicity / sum to 100, reconstruction and reproduction of training scores "
@@ -34,6 +34,12 @@ def jobs(tier):
                              srcs=S + ["pca.c", "preprocessing.c"], mode="ring", kind="bounded", defines=d, unwind=max(r, c, npc) + 4, functions=["PCAIndVarPredictor"],
                              bound="%d objects, %d variables, %d stored / %d requested components, ghost cell (%d,%d); values symbolic in Z/256" % (r, c, npc, req, gi, gj),
                              clause="IndVarPredictor: shape, component clamp, back-transform (accumulate, scale, add mean)"))
+    for (r, c, npc, req) in ([(2, 2, 2, 2), (2, 2, 2, 3), (3, 1, 1, 1), (1, 2, 2, 1)] if tier == "quick" else [(2, 2, 2, 2), (2, 2, 2, 3), (3, 1, 1, 1), (1, 2, 2, 1), (2, 3, 3, 3)]):
+        d = {"VC_UNIT_SCORE": None, "VC_R": r, "VC_C": c, "VC_NPC": npc, "VC_REQ": req}
+        J.append(Job("PCAScorePredictor@r=%d,c=%d,npc=%d,req=%d" % (r, c, npc, req), "C01/pca_structure.c", entry="h_PCAScorePredictor", srcs=S + ["preprocessing.c"], kind="bounded",
+                     defines=d, unwind=max(r, c, npc) + 4, functions=["PCAScorePredictor"], cbmc_flags=["--slice-formula"], timeout=900,
+                     bound="%d objects, %d variables, %d stored / %d requested components; loadings symbolic" % (r, c, npc, req),
+                     clause="ScorePredictor: shape, clamp, stored averages/scalings applied, loadings column pc for component pc, zeroed accumulator for every component"))
     # with stored scalings the three-factor product (score*loading)*scale did not finish even at 1x1x1: shape / clamp / memory safety only
     for (r, c, npc, req) in [(2, 2, 2, 1), (1, 2, 1, 3)]:
         d = {"VC_UNIT_PRED": None, "VC_R": r, "VC_C": c, "VC_NPC": npc, "VC_REQ": req, "VC_SCALED": 2, "VC_GI": 9, "VC_GJ": 9}
